@@ -129,6 +129,8 @@ type Interp struct {
 	blobs      map[*SymStr]*blobRec
 	tsGhost    map[*Obj]TimeV
 	drawCursor int
+	prefs      []*Term // model preferences: asked of counterexample models so that they replay natively; never part of the path condition
+	nowReplays int // clock readings taken while replaying draws (fresh symbols, see time.Now)
 	sent       []sentRec
 	spec      bool // speculative (side-effect free) evaluation of a branch arm
 	merges    int
